@@ -299,15 +299,18 @@ func (s *Store) Close() error {
 
 	cerr := s.Err()
 
-	err := s.index.Close()
+	// Close the primary before the index. This stops the primary's garbage
+	// collector, which updates the index when it relocates records, and writes
+	// the primary records before the index entries that refer to them.
+	err := s.index.Primary.Close()
 	if err != nil {
 		cerr = err
 	}
-	verifhook.At("store.close.index_closed")
-	if err = s.index.Primary.Close(); err != nil {
+	verifhook.At("store.close.primary_closed")
+	if err = s.index.Close(); err != nil {
 		cerr = err
 	}
-	verifhook.At("store.close.primary_closed")
+	verifhook.At("store.close.index_closed")
 	s.fileCache.Clear()
 	if err = s.freelist.Close(); err != nil {
 		cerr = err
